@@ -472,11 +472,6 @@ impl Node {
         node_ids: &mut HashSet<NodeIdentifier>,
         conn: &Connection,
     ) -> Result<Vec<NodeToInsert>> {
-        //a version that is not newer than a stored deletion record must not be requested again
-        Self::remove_deleted_versions(node_ids, conn)?;
-        if node_ids.is_empty() {
-            return Ok(Vec::new());
-        }
         let it = &mut node_ids.iter().peekable();
         let mut q = String::new();
         let mut ids = Vec::new();
@@ -553,6 +548,7 @@ impl Node {
                         old_verifying_key: Some(node.verifying_key),
                         old_fts_str: old_fts,
                         node_fts_str: None,
+                        deletions: Vec::new(),
                     };
 
                     result.push(node_to_insert);
@@ -572,50 +568,58 @@ impl Node {
                 old_verifying_key: None,
                 old_fts_str: None,
                 node_fts_str: None,
+                deletions: Vec::new(),
             };
 
             result.push(node_to_insert);
         }
 
+        Self::attach_deletion_records(&mut result, conn)?;
+
         Ok(result)
     }
 
     //
-    // Removes from the set the node versions that are covered by a deletion record stored locally
+    // Attaches to every candidate the deletion records stored locally for its id.
+    // Whether a record covers the incoming version is decided with the room rights, once the version is known
     //
-    fn remove_deleted_versions(
-        node_ids: &mut HashSet<NodeIdentifier>,
+    fn attach_deletion_records(
+        candidates: &mut [NodeToInsert],
         conn: &Connection,
     ) -> Result<()> {
-        if node_ids.is_empty() {
+        if candidates.is_empty() {
             return Ok(());
         }
         let mut q = String::new();
-        let mut ids = Vec::with_capacity(node_ids.len());
-        for node in node_ids.iter() {
+        let mut ids = Vec::with_capacity(candidates.len());
+        for candidate in candidates.iter() {
             if !q.is_empty() {
                 q.push(',');
             }
             q.push('?');
-            ids.push(node.id);
+            ids.push(candidate.id);
         }
         let query = format!(
-            "SELECT id, max(mdate) FROM _node_deletion_log WHERE id in ({}) GROUP BY id",
+            "SELECT room_id, id, entity, mdate, deletion_date, verifying_key, signature 
+            FROM _node_deletion_log WHERE id in ({})",
             q
         );
-        let mut deleted: HashMap<Uid, i64> = HashMap::new();
-        {
-            let mut stmt = conn.prepare(&query)?;
-            let mut rows = stmt.query(params_from_iter(ids.iter()))?;
-            while let Some(row) = rows.next()? {
-                deleted.insert(row.get(0)?, row.get(1)?);
+        let mut stmt = conn.prepare(&query)?;
+        let mut rows = stmt.query(params_from_iter(ids.iter()))?;
+        while let Some(row) = rows.next()? {
+            let deletion = NodeDeletionEntry {
+                room_id: row.get(0)?,
+                id: row.get(1)?,
+                entity: row.get(2)?,
+                mdate: row.get(3)?,
+                deletion_date: row.get(4)?,
+                verifying_key: row.get(5)?,
+                signature: row.get(6)?,
+                entity_name: None,
+            };
+            if let Some(candidate) = candidates.iter_mut().find(|c| c.id.eq(&deletion.id)) {
+                candidate.deletions.push(deletion);
             }
-        }
-        if !deleted.is_empty() {
-            node_ids.retain(|node| match deleted.get(&node.id) {
-                Some(deleted_version) => node.mdate > *deleted_version,
-                None => true,
-            });
         }
         Ok(())
     }
@@ -796,6 +800,8 @@ pub struct NodeToInsert {
     pub old_local_id: Option<i64>,
     pub old_fts_str: Option<String>,
     pub node_fts_str: Option<String>,
+    //deletion records stored locally for this id
+    pub deletions: Vec<NodeDeletionEntry>,
 }
 impl NodeToInsert {
     pub fn update_daily_logs(&self, daily_log: &mut DailyMutations) {
